@@ -32,6 +32,7 @@ Anything outside the subset raises Reject: the entry point becomes a dummy and
 translator_ok_code10 := false.
 """
 import ast
+import pyimports
 import os
 import re
 import sys
@@ -264,6 +265,7 @@ class Unit10:
     def __init__(self, fname, cname):
         with open(os.path.join(SRC, fname)) as fh:
             self.tree = ast.parse(fh.read())
+        self.tree = pyimports.canonicalise(self.tree)
         self.cname = cname
         found = [n for n in self.tree.body if isinstance(n, ast.ClassDef) and n.name == cname]
         if len(found) != 1:
